@@ -52,9 +52,9 @@ def parse_answer(ans):
     return d
 
 
-def run(ck, pid, n_quick, n_thorough, profiles):
+def run(ck, pid, n_quick, n_thorough, profiles, want=("stream",)):
     n = n_thorough if ck.thorough else n_quick
-    outs = pipe_common.run_corpus(ck, n, profiles=profiles, want=("stream",))
+    outs = pipe_common.run_corpus(ck, n, profiles=profiles, want=want)
     lines, owners = [], []
     for o in outs:
         ck.count("status_" + str(o.get("status", "harness-exception")))
